@@ -176,6 +176,114 @@ def two_savers(run, rng, n):
             K.CONC.pre_rename = K.CONC.post_rename = K.CONC.tmp_opened = None
             shutil.rmtree(root, ignore_errors=True)
 
+def two_readers(run, rng, n):
+    """Two independent readers of one log, each with a head file of its own (names that differ only after the last dot:
+    up.s3 / up.gcs), saving at the same time: reader B is started when reader A is about to rename its temp file and is held
+    right after creating its own.  Each head must hold its own reader's position - right after A's rename and at the end -
+    no save may raise, and each reader restarts where it was."""
+    import tempfile, shutil, threading, os as real_os
+    RollLog = K.RL.RollLog
+    for i in range(n):
+        root = tempfile.mkdtemp(prefix='verif_c14_2r_')
+        K.CONC.pre_rename = K.CONC.post_rename = K.CONC.tmp_opened = None
+        try:
+            logs = real_os.path.join(root, 'logs')
+            names = rng.choice([('up.s3', 'up.gcs'), ('head.a.json', 'head.b.json'), ('pos.one', 'pos.two')])
+            ha, hb = real_os.path.join(root, names[0]), real_os.path.join(root, names[1])
+            K.CLOCK.us = 10 ** 12
+            mode = rng.choice(['txt', 'json', 'binl'])
+            w = RollLog(logs, mode, file_size=rng.choice([5, 50, 10 ** 6]), total_size=10 ** 6, utc=True)
+            recs = [('rec%02d' % j) if mode == 'txt' else {'n': j} if mode == 'json' else b'rec%02d' % j for j in range(10)]
+            for r in recs:
+                K.CLOCK.us += 1000
+                w.write(r, K.CLOCK.us / 1_000_000)
+            w.close()
+            K.CLOCK.us += 10 ** 6
+            ra = RollLog(logs, mode, rdonly=True, head=ha, utc=True)
+            rb = RollLog(logs, mode, rdonly=True, head=hb, utc=True)
+            ka, kb = rng.randrange(1, 4), rng.randrange(5, 9)
+            for _ in range(ka):
+                ra.read()
+            for _ in range(kb):
+                rb.read()
+            pa, pb = list(ra.tell()), list(rb.tell())
+            errs, threads, snap = [], [], []
+            opened, resume = threading.Event(), threading.Event()
+            main_thread = threading.current_thread()
+            def second():
+                try:
+                    rb.write_head()
+                except BaseException as e:      # noqa
+                    errs.append('reader B: save raised %r' % (e,))
+            def pre(a, b):
+                if not threads:
+                    t = threading.Thread(target=second, daemon=True)
+                    threads.append(t)
+                    t.start()
+                    opened.wait(0.05)
+            def post(a, b):
+                if threading.current_thread() is main_thread and not snap:
+                    try:
+                        snap.append(open(ha).read())
+                    except Exception as e:      # noqa
+                        snap.append('unreadable %r' % (e,))
+                    resume.set()
+            def tmp_opened():
+                if threading.current_thread() is not main_thread:
+                    opened.set()
+                    resume.wait(2)
+            K.CONC.pre_rename, K.CONC.post_rename, K.CONC.tmp_opened = pre, post, tmp_opened
+            try:
+                ra.write_head()
+            except BaseException as e:      # noqa
+                errs.append('reader A: save raised %r' % (e,))
+            resume.set()
+            for t in threads:
+                t.join(5)
+            K.CONC.pre_rename = K.CONC.post_rename = K.CONC.tmp_opened = None
+            case = dict(family='two-readers', mode=mode, heads=list(names), read_a=ka, read_b=kb, position_a=pa, position_b=pb)
+            def holds(text, pos):
+                try:
+                    return json.loads(text.strip()) == pos
+                except Exception:      # noqa
+                    return False
+            for text in snap:
+                if not holds(text, pa):
+                    run.violation('head:corrupt:two-readers', "two readers with their own head files save at the same time; right after reader A's "
+                                  'rename its head holds %r, its position is %r (reader B is at %r)' % (text[:60], pa, pb), dict(case=case))
+            for e in errs:
+                run.violation('head:save-raised:two-readers', 'two readers with their own head files save at the same time: ' + e, dict(case=case))
+            if not errs and all(holds(t, pa) for t in snap):
+                finals = []
+                for hp, pos, who in ((ha, pa, 'A'), (hb, pb, 'B')):
+                    try:
+                        txt = open(hp).read()
+                    except Exception as e:      # noqa
+                        txt = 'unreadable %r' % (e,)
+                    finals.append(txt)
+                    if not holds(txt, pos):
+                        run.violation('head:wrong-position:two-readers reader=%s' % who, 'after both saves the head of reader %s holds %r, its position is %r'
+                                      % (who, txt[:60], pos), dict(case=case))
+                if holds(finals[0], pa) and holds(finals[1], pb):
+                    ra.close(); rb.close()
+                    for hp, k, who in ((ha, ka, 'A'), (hb, kb, 'B')):
+                        r2 = RollLog(logs, mode, rdonly=True, head=hp, utc=True)
+                        rest = []
+                        for _ in range(len(recs)):
+                            x = r2.read()
+                            if x is None:
+                                break
+                            rest.append(x)
+                        if rest != recs[k:]:
+                            run.violation('head:skip-or-repeat:two-readers reader=%s' % who, 'reader %s restarts and is handed %r, it had not yet read %r'
+                                          % (who, rest, recs[k:]), dict(case=case))
+                        r2.close()
+            run.count('family:two-readers')
+            run.seen(('two-readers', mode, ka, kb, i), nontrivial=bool(snap) and bool(threads))
+        finally:
+            K.CONC.pre_rename = K.CONC.post_rename = K.CONC.tmp_opened = None
+            shutil.rmtree(root, ignore_errors=True)
+
 def main():
     run = vlib.Run('C14')
     rng = run.rng
@@ -246,6 +354,7 @@ def main():
             run.samples.append(dict(family='random', header={k: case[k] for k in ('mode', 'file_size', 'total_size', 'regime')},
                                     ops=case['ops'][:14], violations=[v[0] for v in orc.viol]))
     two_savers(run, rng, run.n(12, 100))
+    two_readers(run, rng, run.n(8, 80))
     run.model_disagree('log', IMPORTS, 'run_log', 'hdr * list op', lits, shard=run.n(25, 40))
     for k, n in seen_keys.items():
         run.count('violation:' + k, n)
